@@ -76,6 +76,32 @@ func checkC13(c *Ctx, r *Report) {
 	vf := c.fn("(*Object).validateField")
 	sub := c.fn("(*Object).isSubType")
 	r.check("C13.IFACE", "interface fields are compared by type (isSubType) and arguments", posFn(vf), vf != nil && sub != nil && vreach[vf] && vreach[sub], "field compatibility check not reachable")
+	// positions and their predicates: the field's type is covariant (isSubType), an argument's type is invariant (typeEqual)
+	if vf != nil {
+		te := c.fn("typeEqual")
+		nA := 0
+		for _, ci := range callsIn(vf) {
+			cal := ci.Common().StaticCallee()
+			if cal == nil || (cal != sub && cal != te) {
+				continue
+			}
+			pos := ""
+			for _, arg := range ci.Common().Args {
+				if _, o, f, ok := loadOfField(stripIface(arg)); ok && f == "Type" {
+					pos = o
+				}
+			}
+			switch pos {
+			case "Arg":
+				nA++
+				r.check("C13.IFACE", fmt.Sprintf("%s: argument types of an interface field are compared for equality", fnName(vf)), ci.Pos(), cal == te,
+					"argument types are compared with the covariant predicate: an implementation that narrows an argument (String -> String!, [String] -> [String!]) is accepted although callers of the interface field may pass what the interface allows")
+			case "FieldDef":
+				r.check("C13.IFACE", fmt.Sprintf("%s: the field's own type is compared with the sub-type predicate", fnName(vf)), ci.Pos(), cal == sub, "the field type must be the interface field's type or a sub-type of it")
+			}
+		}
+		r.floor("C13.IFACE", "argument type comparisons in the interface conformance check", nA, 1)
+	}
 	uv := c.fn("(*Union).Validate")
 	okU := false
 	if uv != nil {
@@ -451,6 +477,47 @@ func c13Names(c *Ctx, r *Report, vreach map[*ssa.Function]bool) {
 		r.check("C13.NAMES", "name check at "+w, vn.Pos(), got[w], "names at this position are not validated (well-formedness, reserved prefix)")
 	}
 	r.Tables["name_checks"] = keys(got)
+	// the exemption from the reserved prefix is decided by the flag of the node that is named, not by its owner's
+	rootOf := func(v ssa.Value) ssa.Value {
+		for d := 0; d < 6; d++ {
+			switch t := v.(type) {
+			case *ssa.UnOp:
+				v = t.X
+			case *ssa.FieldAddr:
+				v = t.X
+			case *ssa.Field:
+				v = t.X
+			default:
+				return v
+			}
+		}
+		return v
+	}
+	var fl []*ssa.Function
+	for f := range vreach {
+		if c.inPkg(f) {
+			fl = append(fl, f)
+		}
+	}
+	sort.Slice(fl, func(i, j int) bool { return fnName(fl[i]) < fnName(fl[j]) })
+	for _, f := range fl {
+		k := 0
+		for _, ci := range callsIn(f) {
+			args := ci.Common().Args
+			if ci.Common().StaticCallee() != vn || len(args) < 3 {
+				continue
+			}
+			_, _, f0, ok0 := loadOfField(args[0])
+			_, _, f2, ok2 := loadOfField(args[2])
+			if !ok0 || !ok2 || f0 != "core" || f2 != "N" {
+				continue
+			}
+			k++
+			same := sameVal(rootOf(args[0]), rootOf(args[2]))
+			r.check("C13.NAMES", fmt.Sprintf("%s: name check #%d takes the built-in flag of the node it names", fnName(f), k), ci.Pos(), same,
+				"the reserved '__' prefix is waived according to the flag of a different node (the owning type): a document that extends a built-in type can give it members with reserved names")
+		}
+	}
 }
 
 func c13InOut(c *Ctx, r *Report, vreach map[*ssa.Function]bool) {
